@@ -99,3 +99,7 @@ P = {
 for k, v in P.items():
     v.setdefault("module", "Irc.Props." + k)
     v.setdefault("fn", [])
+
+# companion theorem modules (audited together with the main one)
+P["C13"]["extra_modules"] = ["Irc.Props.C13Codec"]
+P["C05"]["extra_modules"] = ["Irc.InvProofs.Step"]
